@@ -232,6 +232,26 @@ CLAIMED = {
        "later assignments (no constraint is involved). Known findings (kinked kernels on the requires_grad path, HammingIMQ batching, KISS + "
        "fixed-noise fantasies) are listed in known_findings.json.",
   technique="contract-based deductive verification for the variance-floor and noise-bound clauses (AST-extracted real functions, z3); numerical enumeration (bounded) for the PSD clauses"),
+ "C01": dict(
+  category="other",
+  text="Proof tier (counted): the assembly of the closed-form conditional from the REAL prediction code, with the linear solve as a callee "
+       "contract (A @ SOLVE(A, R) = R): DefaultPredictionStrategy.exact_prediction splits the joint prior at [X; X*] into m* = mu[n:], K** = "
+       "Sigma[n:, n:], K*x = Sigma[n:, :n] on both sides of the eager-size threshold (symbolic n, s, batch); _mean_cache('ignore') = "
+       "SOLVE(cov(likelihood(train prior, train inputs)), y - marginal mean) with and without detach; exact_predictive_mean = m* + K*x @ "
+       "mean_cache; exact_predictive_covar (fast_pred_var off) = K** - K*x @ SOLVE(cov(likelihood(N(0, Kxx))), Kx*) for tensor and operator "
+       "arguments (addmm alpha/beta honoured), a zero operator of the test size under skip_posterior_variances; ExactGP.__call__ in evaluation mode "
+       "builds the strategy once from forward(train inputs), labels and likelihood, evaluates forward on cat([train, test]) and returns the "
+       "joint's class of (mean, covariance). 'The likelihood adds exactly the observation noise' is C12's contract. Bounded tier (not counted): "
+       "dense float64 conditional vs model(x*) and likelihood(model(x*)) for 6 likelihood families x 6 kernels x 3 means, n in {1,2,7}, 10 batch "
+       "configurations, 92 combinations of the prediction-relevant settings (lazy / eager, eager-size threshold, Cholesky / CG / root paths, "
+       "fast_pred_var, detach_test_caches, skip_posterior_variances), repeated predictions on one object.",
+  design_ref="DESIGN.md section 5, C01",
+  note="Exactness of solve / root_inv_decomposition / CG / Lanczos is the dependency's contract (assumed in the proof tier, measured in the bounded "
+       "tier: 1e-6 on direct paths, 1e-4 on CG paths whose stopping rule is not controlled by cg_tolerance). The fast_pred_var path (covar_cache, "
+       "root decompositions) and the kernel-specific strategies are bounded-tier only. Known findings: a linear_operator defect in "
+       "KroneckerProductAddedDiagLinearOperator._root_inv_decomposition (wrong multitask covariances with fast_pred_var above max_cholesky_size) and "
+       "targets that carry a batch dimension the inputs do not (prediction raises).",
+  technique="contract-based deductive verification: AST-extracted real functions, elementwise tensor domain with binder-free sums, linear solves as callee contracts (stubs), z3"),
 }
 REASON_NOT_BUILT = "contracts for this property are not built yet in this revision (see DESIGN.md section 9 build order); not claimed until its obligations are discharged by the checker"
 
